@@ -267,6 +267,31 @@ func (in *Interp) foreign(fn *types.Func, recv Value, x *ast.CallExpr) []Value {
 		return []Value{in.D.AddSub(token.SUB, a, b)}
 	case "(time.Time).UTC":
 		return []Value{recv}
+	case "math/bits.LeadingZeros8", "math/bits.LeadingZeros16", "math/bits.LeadingZeros32", "math/bits.LeadingZeros64",
+		"math/bits.TrailingZeros8", "math/bits.TrailingZeros16", "math/bits.TrailingZeros32", "math/bits.TrailingZeros64",
+		"math/bits.Len8", "math/bits.Len16", "math/bits.Len32", "math/bits.Len64":
+		args := in.args(x, sig)
+		v, ok := args[0].(*Bits)
+		if !ok {
+			in.fail(x, "%s on %T", name, args[0])
+		}
+		bs := v.Bits()
+		w := len(bs)
+		// result = number of zeros before the first set bit scanning from the top (leading) / bottom (trailing)
+		res := in.D.Const(int64(w), 64, true)
+		trailing := strings.Contains(name, "Trailing")
+		// build as a priority chain from the last scanned bit to the first
+		for k := w - 1; k >= 0; k-- {
+			idx := k
+			if !trailing {
+				idx = w - 1 - k
+			}
+			res = in.D.ITE(bs[idx], in.D.Const(int64(k), 64, true), res)
+		}
+		if strings.Contains(name, ".Len") {
+			res = in.D.AddSub(token.SUB, in.D.Const(int64(w), 64, true), res)
+		}
+		return []Value{res}
 	case "crypto/subtle.ConstantTimeCompare":
 		args := in.args(x, sig)
 		a, ok1 := args[0].(*Slice)
@@ -412,6 +437,47 @@ func (in *Interp) OpaqueBytes(kind string, inputs [][]Value, n int, desc string)
 		key += "{" + in.termKey(g) + "}"
 	}
 	id, ok := in.opaqueIDs[key]
+	if !ok && in.live != True && in.live != False {
+		// congruence under the path condition: an existing term of the same kind whose inputs are equal on every path
+		// that is executing now yields the same outputs on those paths
+		for oid := 1; oid <= len(in.OpaqueDesc) && !ok; oid++ {
+			t := in.OpaqueDesc[oid]
+			if t.Kind != kind || len(t.Inputs) != len(inputs) {
+				continue
+			}
+			same := true
+			for g := range inputs {
+				if len(t.Inputs[g]) != len(inputs[g]) {
+					same = false
+					break
+				}
+				for i := range inputs[g] {
+					a, oka := t.Inputs[g][i].(*Bits)
+					b, okb := inputs[g][i].(*Bits)
+					if !oka || !okb || a.W != b.W {
+						same = false
+						break
+					}
+					ab, bb := a.Bits(), b.Bits()
+					for j := range ab {
+						if ab[j] != bb[j] && in.D.M.And(in.live, in.D.M.Xor(ab[j], bb[j])) != False {
+							same = false
+							break
+						}
+					}
+					if !same {
+						break
+					}
+				}
+				if !same {
+					break
+				}
+			}
+			if same {
+				id, ok = oid, true
+			}
+		}
+	}
 	if !ok {
 		if in.opaqueIDs == nil {
 			in.opaqueIDs = map[string]int{}
